@@ -305,10 +305,25 @@ class Effects:
                             coll = True
         return direct, coll
 
+    def _is_schema_node(self, e) -> bool:
+        if getattr(self, '_cur_generic', False):
+            return False       # inside the family-generic Tree methods the receiver's root at the call site decides
+        for a in self.ty.type_of(e):
+            atoms = [a] + (list(a[1]) if a[0] in ('list', 'dict') else [])
+            for x in atoms:
+                if x[0] == 'inst':
+                    c = self.sm.get_class(x[1])
+                    if c is not None and c.is_subclass_of('XSDTree'):
+                        return True
+        return False
+
     def _derive(self, base: Set, e) -> Set:
         """Roots of a member / method result of an object with roots `base`.  Parts of a fresh matcher object are
         fresh, except the XMLElements it holds (freshness does not propagate to them)."""
         out = set()
+        if base - {'const', 'fresh'} and self._is_schema_node(e) and not all(isinstance(x, tuple) and x[0] == 'of' for x in base - {'const', 'fresh'}):
+            # a schema node reached from any object is the process-wide one
+            return {'module'}
         for x in base:
             if x == 'const':
                 continue
@@ -318,7 +333,10 @@ class Effects:
                     out.add('unknown')
                 if coll:
                     out |= {'fresh', ('of', 'unknown')}
-                if not direct and not coll:
+                if self._is_schema_node(e):
+                    # a fresh matcher object *refers to* schema nodes, it does not own them: they are process-wide
+                    out.add('module')
+                elif not direct and not coll:
                     out.add('fresh')
             elif isinstance(x, tuple) and x[0] == 'of':
                 continue
@@ -340,6 +358,10 @@ class Effects:
         return out or {'unknown'}
 
     def expr_roots(self, f: FuncInfo, e) -> Set:
+        self._cur_generic = f.module.name == 'verysimpletree.tree'
+        return self._expr_roots(f, e)
+
+    def _expr_roots(self, f: FuncInfo, e) -> Set:
         """Where can the object denoted by e come from?  'fresh' = created during this call;
         ('of', r) = a collection whose elements have root r."""
         if isinstance(e, ast.Constant):
@@ -455,8 +477,8 @@ class Effects:
                         ws.append(Write(f, node, r, fld, how + '[]', owners=self.owners_of(holder)))
                 elif isinstance(base, ast.Name):
                     for r in self.name_roots(f, base.id):
-                        if r not in ('fresh', 'const'):
-                            ws.append(Write(f, node, r, '<item>', how + '[]'))
+                        if r not in ('fresh', 'const') and not (isinstance(r, tuple) and r[0] == 'of'):
+                            ws.append(Write(f, node, r, self._alias_field(f, base.id) or '<item>', how + '[]', owners=self._alias_owners(f, base.id)))
             elif isinstance(t, (ast.Tuple, ast.List)):
                 for x in t.elts:
                     target_write(x, node, how)
@@ -484,8 +506,9 @@ class Effects:
                         ws.append(Write(f, n, r, fld, 'mutate:' + n.func.attr, owners=self.owners_of(holder)))
                 elif isinstance(recv, ast.Name):
                     for r in self.name_roots(f, recv.id):
-                        if r not in ('fresh', 'const'):
-                            ws.append(Write(f, n, r, self._alias_field(f, recv.id) or '<object>', 'mutate:' + n.func.attr))
+                        if r not in ('fresh', 'const') and not (isinstance(r, tuple) and r[0] == 'of'):
+                            ws.append(Write(f, n, r, self._alias_field(f, recv.id) or '<object>', 'mutate:' + n.func.attr,
+                                            owners=self._alias_owners(f, recv.id)))
             elif isinstance(n, ast.Call) and isinstance(n.func, ast.Name) and n.func.id == 'setattr' and len(n.args) == 3:
                 nm = const_value(n.args[1])
                 for r in self.expr_roots(f, n.args[0]):
@@ -521,6 +544,14 @@ class Effects:
             if len(names) == 1:
                 return names.pop()
         return None
+
+    def _alias_owners(self, f: FuncInfo, name: str) -> frozenset:
+        for n in walk_local(f.node, include_root=False):
+            if isinstance(n, ast.Assign) and any(isinstance(t, ast.Name) and t.id == name for t in n.targets):
+                fld, holder = self._field_of(n.value)
+                if fld and holder is not None:
+                    return self.owners_of(holder)
+        return frozenset()
 
     def _alias_field(self, f: FuncInfo, name: str) -> Optional[str]:
         """local `v = x.f` / `v = x.get_f()` -> 'f'"""
